@@ -248,7 +248,7 @@ def main(tier, replay):
         if any(g.get('errtype') in PRECOND_ERRORS for g in gs) or tr['end'].get('etype') in PRECOND_ERRORS:
             print('outside C01: first/last/mean(reduce) met an empty group (the plain operator raises by design)')
             return 0
-        v, _ = C.validate_traces('PlainTrace', [{'pipe': pipe, 'modeled': modeled(pipe) and not M._has_fl(w['groups']), 'oracle': 'pair',
+        v, _ = C.validate_traces('PlainTrace', [{'pipe': pipe, 'modeled': modeled(pipe) and not M._has_fl(w['groups']) and 'np' not in json.dumps(w['groups']), 'oracle': 'pair',
                                                  'groups': [{k: g[k] for k in g if k != 'errtype'}
                                                             for g in gs]}])
         print('pipeline:', ' '.join(MC.op_names(pipe)))
@@ -410,6 +410,28 @@ def main(tier, replay):
             skipped += 1
             continue
         traces.append({'pipe': pipe, 'modeled': modeled(pipe), 'oracle': 'pair',
+                       'groups': [{k: g[k] for k in g if k != 'errtype'} for g in gs]})
+        mux_traces.append(tr)
+        meta.append({'mode': 'direct', 'groups': groups, 'sched_seed': sched_seed})
+    # dedicated: numpy scalars as items (samples taken from an array): comparisons between them
+    # return numpy.bool_, truthy / falsy but not the objects True / False
+    npool = [['np', 'float64', ['q', 1, 4]], ['np', 'float64', I(0)], ['np', 'float64', ['q', 1, 2]],
+             ['np', 'int64', I(1)], ['np', 'int64', I(2)], ['np', 'int64', I(0)]]
+    nops = [[G.op_simple('duc', f=fn('id'))], [G.op_simple('duc', f=fn('id')), {'op': 'count', 'reduce': False}],
+            [G.op_simple('last')], [G.op_agg('max', True)],
+            [G.op_simple('take', n=2)], [G.op_filter('true'), G.op_simple('duc', f=fn('id'))]]
+    for _ in range(80 if thorough else 30):
+        pipe = rng.choice(nops)
+        kind = rng.choice(['float64', 'int64'])
+        pool = [v for v in npool if v[1] == kind]
+        groups = [(idx, [rng.choice(pool) for _ in range(rng.randint(1, 7))])
+                  for idx in rng.sample([0, 1, 4], rng.choice([1, 2, 3]))]
+        sched_seed = rng.randint(0, 10**9)
+        tr, gs = pair_direct(random.Random(sched_seed), pipe, groups)
+        if any(g.get('errtype') in PRECOND_ERRORS for g in gs):
+            skipped += 1
+            continue
+        traces.append({'pipe': pipe, 'modeled': False, 'oracle': 'pair',
                        'groups': [{k: g[k] for k in g if k != 'errtype'} for g in gs]})
         mux_traces.append(tr)
         meta.append({'mode': 'direct', 'groups': groups, 'sched_seed': sched_seed})
